@@ -145,7 +145,7 @@ def _optimizer(T, method, Nv, nl_kinds, lin_kinds, mask, options, max_iter, extr
         variables=types.SimpleNamespace(lower_bounds=vlb, upper_bounds=vub, mask=marr, initial_values=x0, types=None),
         nonlinear_constraints=types.SimpleNamespace(lower_bounds=nlb, upper_bounds=nub) if K else None,
         linear_constraints=types.SimpleNamespace(coefficients=A, lower_bounds=llb, upper_bounds=lub) if L else None,
-        optimizer=types.SimpleNamespace(method=method, speculative=False, split_evaluations=False, options=options, max_iterations=max_iter, output_dir=None, tolerance=1e-3, parallel=False),
+        optimizer=types.SimpleNamespace(method=method, speculative=False, split_evaluations=False, options=options, max_iterations=max_iter, max_functions=5, output_dir=None, tolerance=1e-3, parallel=False),
     )
     opt = object.__new__(cls)
     opt._config, opt._method, opt._parallel = cfg, method, False
@@ -296,7 +296,7 @@ def scn_problem(T, case):
 
 # ------------------------------------------------------------------------------------ options / start arguments
 def cases_options(tier):
-    for method in ("slsqp", "tnc", "differential_evolution"):
+    for method in ("slsqp", "tnc", "differential_evolution", "nelder-mead", "powell"):
         for options in ("none", "empty", "dict", "list"):
             for mi in (None, 7):
                 yield "%s/options=%s/max_iterations=%s" % (method, options, mi), {"method": method, "options": options, "mi": mi}
@@ -348,12 +348,19 @@ def scn_options(T, case):
     if mi is not None:
         name = "C08.options.max_iterations_forwarded[options=%s]" % ("None" if not isinstance(options, dict) else "dict")
         T.prove(name, passed.get(key) == mi, "passed options: %r" % (passed,))
+    # nothing is invented: besides the user's options only the iteration limit (and the plug-in's own display / integrality /
+    # deferred-updating settings) reach the back-end; in particular max_functions is enforced by the driver, which reports
+    # MAX_FUNCTIONS_REACHED - the back-end is not given a function budget of its own
+    given = set(options) if isinstance(options, dict) else set()
+    every = dict(kw.get("options") or {}) if kind == "minimize" else {k: v for k, v in kw.items() if k not in ("func", "x0", "bounds", "constraints", "polish", "vectorized")}
+    T.prove("C08.options.no_option_is_invented_and_the_function_budget_is_not_forwarded", set(every) <= given | {key if mi is not None else key, "disp", "integrality", "updating", "workers"}
+            and (mi is not None or key in given or key not in every), "passed: %r" % (sorted(every),))
     if isinstance(options, dict):
         T.prove("C08.options.user_options_forwarded", all(kw.get("options", kw).get(k) == v or (k == key and mi is not None) for k, v in options.items()) if kind == "minimize"
                 else all(kw.get(k) == v or (k == key and mi is not None) for k, v in options.items()))
     if kind == "minimize":
         T.prove("C08.start.tolerance_bounds_and_method_forwarded", kw["tol"] == 1e-3 and kw["bounds"] is opt._bounds and kw["method"] == method and kw["constraints"] is opt._constraints)
-        T.prove("C08.start.jacobian_passed_for_gradient_methods", kw["jac"] == opt._gradient)
+        T.prove("C08.start.jacobian_passed_for_gradient_methods", kw["jac"] == opt._gradient if method not in ("nelder-mead", "powell", "cobyla") else kw["jac"] is False)
     else:
         T.prove("C08.start.bounds_and_constraints_forwarded", kw["bounds"] is opt._bounds and kw["constraints"] is opt._constraints)
 
@@ -389,11 +396,47 @@ def scn_reject(T, case):
     T.prove("C08.reject.slsqp_and_differential_evolution_accept_every_kind", accepted or method not in ("slsqp", "differential_evolution") or (method == "differential_evolution" and not case["bounds"]))
 
 
+# ------------------------------------------------------------------------------------ the validated linear constraints carry one bound pair per row
+def cases_validated_linear_constraints(tier):
+    for bad in (False, True):
+        for both in (False, True):
+            yield "inverted=%s/both-bounds-given-once=%s" % (bad, both), {"v": "linear", "bad": bad, "both_scalar": both}
+
+
+def scn_validated_linear_constraints(T, case):
+    """The problem handed to SciPy is built from the VALIDATED linear constraints: bounds given once are broadcast to one pair per row, also when both are given once (C18's validator scenario under this property's prefix)."""
+    from contracts import C18
+    from contracts.reuse import Renamed
+
+    C18.scn_validators(Renamed(T, "C18.", "C08.config."), case)
+
+
+# ------------------------------------------------------------------------------------ linear constraints under a variable transform
+def cases_transformed_linear(tier):
+    from contracts import C11
+
+    for cid, c in C11.cases_linear(tier):
+        if c["rows"] == 1 or tier == "thorough":
+            yield cid, c
+
+
+def scn_transformed_linear(T, case):
+    """With a variable transform the 'configured problem' is the user's and the problem handed to SciPy is built from the transformed
+    linear constraints: a user point satisfies the configured rows iff its optimizer-domain image satisfies the transformed ones -
+    for rows with coefficients of any sign (C11's scenario of the real VariableScaler under this property's prefix)."""
+    from contracts import C11
+    from contracts.reuse import Renamed
+
+    C11.scn_linear(Renamed(T, "C11.", "C08.transform."), case)
+
+
 SCENARIOS = [
     Scenario("normalized_constraints", scn_normalized, cases_normalized, {"quick": 5, "thorough": 30}),
     Scenario("scipy_problem", scn_problem, cases_problem, {"quick": 3, "thorough": 15}),
     Scenario("options_and_start", scn_options, cases_options, {"quick": 1, "thorough": 2}),
     Scenario("rejection", scn_reject, cases_reject, {"quick": 1, "thorough": 1}),
+    Scenario("validated_linear_constraints", scn_validated_linear_constraints, cases_validated_linear_constraints, {"quick": 2, "thorough": 10}),
+    Scenario("linear_constraints_under_a_variable_transform", scn_transformed_linear, cases_transformed_linear, {"quick": 5, "thorough": 30}),
 ]
 
 MANIFEST = {
